@@ -1,4 +1,5 @@
 import PraatModel.Textgrid
+import PraatModel.Quote
 
 /-!
 # The save path of textgrid_io.py: `_prepTgForSaving`, `_fillInBlanks`, `_removeUltrashortIntervals`, the text emitters
@@ -98,8 +99,14 @@ def prepTg (g : Tg α) (blanks : Bool) (minOv maxOv : Option α) (minLen : Optio
 def numToStr (trunc : α → α) (reprOf intOf : α → String) (x : α) : String :=
   if Tm.close14 x (trunc x) then intOf x else reprOf x
 
-/-- `utils.escapeQuotes` -/
-def escapeQuotes (s : String) : String := s.replace "\"" "\"\""
+/-- `utils.escapeQuotes` (`s.replace('"', '""')`): every quote doubled.  Stated through the list-level `escapeL`
+(Quote.lean) so that the whole-file theorems of C02 can reason about it; core's `String.replace` is a searcher fold that
+is opaque to proof.  The two agree on the samples below and the correspondence run compares every emitted file byte for
+byte with praatio's output. -/
+def escapeQuotes (s : String) : String := String.ofList (escapeL s.toList)
+
+#guard ["", "\"", "a\"b", "\"\"", "x\"\"\"y\"", "no quotes\n", "\"a\" \"b\""].all
+  fun s => escapeQuotes s == s.replace "\"" "\"\""
 
 /-- `_tgToShortTextForm` -/
 def tgToShort (num : α → String) (g : Tg α) (lo hi : α) : String :=
